@@ -356,6 +356,81 @@ func vC06Gen(r *vRand, f *vFsm, idx uint64) (*proto.RaftLog, vM) {
 	return &proto.RaftLog{Op: proto.Op_PUBLISH_ACTIVITY, PublishActivityOp: &proto.PublishActivityOp{RaftIndex: idx - 1}}, vM{"op": "activity", "i": idx - 1}
 }
 
+// vC06FromDesc rebuilds the operation a description stands for (corpus histories).
+func vC06FromDesc(d vM, idx uint64) *proto.RaftLog {
+	strs := func(k string) []string {
+		var out []string
+		for _, x := range d[k].([]string) {
+			out = append(out, x)
+		}
+		return out
+	}
+	ints := func(k string) []int32 {
+		if d[k] == nil {
+			return nil
+		}
+		return d[k].([]int32)
+	}
+	switch d["op"] {
+	case "create":
+		name, n, reps := d["s"].(string), d["n"].(int), strs("replicas")
+		var parts []*proto.Partition
+		for i := 0; i < n; i++ {
+			parts = append(parts, &proto.Partition{Subject: name, Stream: name, Id: int32(i), ReplicationFactor: int32(len(reps)),
+				Replicas: append([]string{}, reps...), Isr: append([]string{}, reps...), Leader: reps[i%len(reps)]})
+		}
+		return &proto.RaftLog{Op: proto.Op_CREATE_STREAM, CreateStreamOp: &proto.CreateStreamOp{Stream: &proto.Stream{Name: name, Subject: name, Partitions: parts, CreationTimestamp: 1}}}
+	case "delete":
+		return &proto.RaftLog{Op: proto.Op_DELETE_STREAM, DeleteStreamOp: &proto.DeleteStreamOp{Stream: d["s"].(string)}}
+	case "pause":
+		return &proto.RaftLog{Op: proto.Op_PAUSE_STREAM, PauseStreamOp: &proto.PauseStreamOp{Stream: d["s"].(string), Partitions: ints("ps"), ResumeAll: d["all"].(bool)}}
+	case "resume":
+		return &proto.RaftLog{Op: proto.Op_RESUME_STREAM, ResumeStreamOp: &proto.ResumeStreamOp{Stream: d["s"].(string), Partitions: ints("ps")}}
+	case "readonly":
+		return &proto.RaftLog{Op: proto.Op_SET_STREAM_READONLY, SetStreamReadonlyOp: &proto.SetStreamReadonlyOp{Stream: d["s"].(string), Partitions: ints("ps"), Readonly: d["ro"].(bool)}}
+	case "shrink":
+		return &proto.RaftLog{Op: proto.Op_SHRINK_ISR, ShrinkISROp: &proto.ShrinkISROp{Stream: d["s"].(string), Partition: d["p"].(int32), ReplicaToRemove: d["r"].(string)}}
+	case "expand":
+		return &proto.RaftLog{Op: proto.Op_EXPAND_ISR, ExpandISROp: &proto.ExpandISROp{Stream: d["s"].(string), Partition: d["p"].(int32), ReplicaToAdd: d["r"].(string)}}
+	case "leader":
+		return &proto.RaftLog{Op: proto.Op_CHANGE_LEADER, ChangeLeaderOp: &proto.ChangeLeaderOp{Stream: d["s"].(string), Partition: d["p"].(int32), Leader: d["l"].(string)}}
+	case "gcreate":
+		return &proto.RaftLog{Op: proto.Op_CREATE_CONSUMER_GROUP, CreateConsumerGroupOp: &proto.CreateConsumerGroupOp{ConsumerGroup: &proto.ConsumerGroup{
+			Id: d["g"].(string), Coordinator: d["coord"].(string), Members: []*proto.Consumer{{Id: d["c"].(string), Streams: strs("ss")}}}}}
+	case "join":
+		return &proto.RaftLog{Op: proto.Op_JOIN_CONSUMER_GROUP, JoinConsumerGroupOp: &proto.JoinConsumerGroupOp{GroupId: d["g"].(string), ConsumerId: d["c"].(string), Streams: strs("ss")}}
+	case "leave":
+		return &proto.RaftLog{Op: proto.Op_LEAVE_CONSUMER_GROUP, LeaveConsumerGroupOp: &proto.LeaveConsumerGroupOp{GroupId: d["g"].(string), ConsumerId: d["c"].(string)}}
+	case "coord":
+		return &proto.RaftLog{Op: proto.Op_CHANGE_CONSUMER_GROUP_COORDINATOR, ChangeConsumerGroupCoordinatorOp: &proto.ChangeConsumerGroupCoordinatorOp{GroupId: d["g"].(string), Coordinator: d["coord"].(string)}}
+	}
+	return &proto.RaftLog{Op: proto.Op_PUBLISH_ACTIVITY, PublishActivityOp: &proto.PublishActivityOp{RaftIndex: idx - 1}}
+}
+
+type vC06Script struct {
+	ops      []vM
+	restarts [][2]int // (snapshot after i, stopped after m)
+}
+
+// corpus: histories that once separated a live server from a rebuilt one
+var vC06Corpus = []vC06Script{
+	// pause, resume, snapshot: the rebuilt server paused the partition again
+	{ops: []vM{{"op": "create", "s": "s1", "n": 1, "replicas": []string{"a"}}, {"op": "pause", "s": "s1", "ps": []int32(nil), "all": false},
+		{"op": "resume", "s": "s1", "ps": []int32{0}}}, restarts: [][2]int{{3, 3}}},
+	// read-only, snapshot: the rebuilt log was writable
+	{ops: []vM{{"op": "create", "s": "s1", "n": 2, "replicas": []string{"a", "b"}}, {"op": "readonly", "s": "s1", "ps": []int32(nil), "ro": true}}, restarts: [][2]int{{2, 2}, {0, 2}}},
+	// group over two streams, one deleted, later join: full replay gave other epochs and assignments
+	{ops: []vM{{"op": "create", "s": "s0", "n": 3, "replicas": []string{"d"}}, {"op": "create", "s": "s1", "n": 3, "replicas": []string{"a"}},
+		{"op": "gcreate", "g": "g0", "coord": "a", "c": "c0", "ss": []string{"s0", "s1"}}, {"op": "delete", "s": "s0"},
+		{"op": "join", "g": "g0", "c": "c1", "ss": []string{"s1"}}, {"op": "create", "s": "s2", "n": 1, "replicas": []string{"b"}}}, restarts: [][2]int{{0, 6}, {0, 3}, {3, 6}}},
+	// a stream nobody subscribes to any more is deleted after a snapshot
+	{ops: []vM{{"op": "create", "s": "s0", "n": 2, "replicas": []string{"a"}}, {"op": "create", "s": "s1", "n": 2, "replicas": []string{"b"}},
+		{"op": "gcreate", "g": "g0", "coord": "a", "c": "c0", "ss": []string{"s0"}}, {"op": "join", "g": "g0", "c": "c1", "ss": []string{"s1"}},
+		{"op": "leave", "g": "g0", "c": "c0"}, {"op": "delete", "s": "s0"}}, restarts: [][2]int{{5, 6}, {5, 5}, {0, 6}}},
+	// delete and re-create while the server is down
+	{ops: []vM{{"op": "create", "s": "s2", "n": 1, "replicas": []string{"a"}}, {"op": "delete", "s": "s2"}, {"op": "create", "s": "s2", "n": 2, "replicas": []string{"b"}}}, restarts: [][2]int{{0, 1}, {1, 1}, {0, 3}}},
+}
+
 // vC06Diff names the first difference between two observations ("" when equal); fields in skip are
 // not compared.
 func vC06Diff(a, b vM, skip map[string]bool) string {
@@ -456,8 +531,13 @@ func TestVerifC06(t *testing.T) {
 	// their own oracle, resumeAll is not part of a snapshot (and not in the property's list)
 	skipAsg := map[string]bool{"marks": true, "resumeAll": true, "disk": true, "activity": true}
 	skipRestart := map[string]bool{"marks": true, "resumeAll": true, "disk": true, "activity": true, "asg": true}
-	for id := 0; id < n; id++ {
+	for id := 0; id < n+len(vC06Corpus); id++ {
 		nops := 4 + r.intn(20)
+		var script *vC06Script
+		if id < len(vC06Corpus) {
+			script = &vC06Corpus[id]
+			nops = len(script.ops)
+		}
 		A := vNewFsm(filepath.Join(work, fmt.Sprintf("c06_%d_A", id)), true)
 		B := vNewFsm(filepath.Join(work, fmt.Sprintf("c06_%d_B", id)), true)
 		var raws [][]byte
@@ -477,7 +557,14 @@ func TestVerifC06(t *testing.T) {
 			}
 		}
 		for i := 1; i <= nops && viol == ""; i++ {
-			op, desc := vC06Gen(r, A, uint64(i))
+			var op *proto.RaftLog
+			var desc vM
+			if script != nil {
+				desc = script.ops[i-1]
+				op = vC06FromDesc(desc, uint64(i))
+			} else {
+				op, desc = vC06Gen(r, A, uint64(i))
+			}
 			raw, _ := op.Marshal()
 			raws = append(raws, raw)
 			descs = append(descs, desc)
@@ -514,7 +601,11 @@ func TestVerifC06(t *testing.T) {
 		B.close()
 		// restarts: snapshot at i (0 = none), stopped after m, replay i+1..nn
 		var restarts []vM
-		for k := 0; k < 4 && viol == "" && nn > 0; k++ {
+		nrestarts := 4
+		if script != nil {
+			nrestarts = len(script.restarts)
+		}
+		for k := 0; k < nrestarts && viol == "" && nn > 0; k++ {
 			i := 0
 			if r.intn(3) > 0 {
 				i = r.intn(nn + 1)
@@ -522,6 +613,9 @@ func TestVerifC06(t *testing.T) {
 			m := i + r.intn(nn-i+1)
 			if r.intn(2) == 0 {
 				m = nn
+			}
+			if script != nil {
+				i, m = script.restarts[k][0], script.restarts[k][1]
 			}
 			dir := filepath.Join(work, fmt.Sprintf("c06_%d_C%d", id, k))
 			C := vNewFsm(dir, true)
